@@ -13,6 +13,7 @@ import (
 	"strings"
 
 	eventbus "github.com/jilio/ebu"
+	"verif/busmodel"
 	"verif/storekit"
 	"verif/vkit"
 )
@@ -53,6 +54,11 @@ type Case struct {
 	Store  string    `json:"store"`  // memory sqlite durable
 	Stream bool      `json:"stream"` // the wrapper exposes ReadStream (memory/sqlite)
 	Batch  int       `json:"batch,omitempty"`
+	// Amb is a busmodel.Ambient mask (observability, hooks, handlers,
+	// persistence timeout of an hour) that must not change anything.
+	Amb int `json:"amb,omitempty"`
+	// HonourCtx makes the wrapped store refuse calls whose context is done.
+	HonourCtx bool `json:"honour_ctx,omitempty"`
 	Runs   []RunSpec `json:"runs"` // a final clean run subscribing every id is appended by the interpreter
 }
 
@@ -244,6 +250,8 @@ func (x *exec) run(ri int, r RunSpec, final bool) {
 	if x.c.Batch > 0 {
 		opts = append(opts, eventbus.WithReplayBatchSize(x.c.Batch))
 	}
+	opts = append(opts, busmodel.Ambient(x.c.Amb&^(busmodel.AmbStore|busmodel.AmbBatchSize))...)
+	x.base.HonourCtx = x.c.HonourCtx
 	bus = eventbus.New(opts...)
 	// an unrelated plain subscriber of every type (never re-publishes)
 	eventbus.Subscribe(bus, func(T1) {})
